@@ -198,6 +198,48 @@ func c04Mutants(r *rng, seed []byte, thorough bool, emit func(tag string, b []by
 				}))
 			}
 		}
+		// every varint of the delta section (deltas and zero-run counts alike) replaced by extreme encodings:
+		// 2^63-1, 2^63 and 2^64-1 (nine and ten bytes), 2^31, 2^32, and an eleven-byte overlong one
+		extremes := [][]byte{
+			{0xFF, 0xFF, 0xFF, 0xFF, 0xFF, 0xFF, 0xFF, 0xFF, 0x7F},
+			{0x80, 0x80, 0x80, 0x80, 0x80, 0x80, 0x80, 0x80, 0x80, 0x01},
+			{0xFF, 0xFF, 0xFF, 0xFF, 0xFF, 0xFF, 0xFF, 0xFF, 0xFF, 0x01},
+			{0x80, 0x80, 0x80, 0x80, 0x08},
+			{0x80, 0x80, 0x80, 0x80, 0x10},
+			{0x80, 0x80, 0x80, 0x80, 0x80, 0x80, 0x80, 0x80, 0x80, 0x80, 0x01},
+		}
+		var starts [][2]int // offset and length of each varint of the delta section
+		_ = withPayload(seed, c, func(p []byte) []byte {
+			if len(p) >= 4 {
+				if rl := int(binary.LittleEndian.Uint32(p)); rl >= 5 && rl+8 <= len(p) {
+					for k := rl + 8; k < len(p); {
+						j := k
+						for j < len(p) && p[j]&0x80 != 0 {
+							j++
+						}
+						if j >= len(p) {
+							break
+						}
+						starts = append(starts, [2]int{k, j + 1 - k})
+						k = j + 1
+					}
+				}
+			}
+			return p
+		})
+		for vi, st := range starts {
+			if vi >= 24 && !thorough {
+				break
+			}
+			for xi, x := range extremes {
+				o, l, xx := st[0], st[1], x
+				emit(fmt.Sprintf("pnvar%d.%d=%d", c, vi, xi), withPayload(seed, c, func(p []byte) []byte {
+					m := append([]byte{}, p[:o]...)
+					m = append(m, xx...)
+					return append(m, p[o+l:]...)
+				}))
+			}
+		}
 		// count fields of the payload: they follow the reference document
 		emit(fmt.Sprintf("pcount%d", c), withPayload(seed, c, func(p []byte) []byte {
 			m := append([]byte{}, p...)
